@@ -15,6 +15,7 @@ for sid in sorted(os.listdir(os.path.join(ROOT, "seeded"))):
     if runs:
         line = runs[0]["lines"][0] if runs[0]["lines"] else ""
         how = "no-failing-input-found" if "no-failing-input-found" in line else "replay with a failing input"
+    if m.get("neutralised_by_fix"): how = "the defect it re-opens was reported and repaired; the change is harmless since"
     rows.append((sid, ", ".join(f.replace("apischema/", "") for f in files), title, ", ".join(det) or "**missed**", how))
 print("| seed | file(s) changed | what the change is / needs | caught by | how |")
 print("|---|---|---|---|---|")
